@@ -597,6 +597,14 @@ Proof.
     split; [apply (Hd st it D1)|]. intros Pst. apply P1. apply Hp; auto.
 Qed.
 
+Lemma fold_ds_ok {S I} (step : S -> I -> S) (dsof : S -> list diag) :
+  (forall st it, diag_ok (dsof (step st it)) = true -> diag_ok (dsof st) = true) ->
+  forall (items : list I) st, diag_ok (dsof (fold_left step items st)) = true -> diag_ok (dsof st) = true.
+Proof.
+  intros Hd items. induction items as [|it r IH]; intros st D; simpl in *; [exact D|].
+  apply (Hd st it). apply IH. exact D.
+Qed.
+
 Lemma kiko_obj f items : KI f -> forall c anon v ds,
   ctx_good c -> anon_good anon -> expr_ok (is_some anon) (EObj items) = true ->
   ev_ (S f) c anon (EObj items) = (v, ds) -> diag_ok ds = true -> good v = true.
@@ -770,9 +778,518 @@ Proof.
   - exfalso.
     assert (Dfin : diag_ok (join_ds (fold_left step vs st0)) = true).
     { rewrite Ef. simpl. injection E as _ <-. exact D. }
+    pose proof (fold_ds_ok step join_ds (fun st it Ds => proj1 (Hstep st it Ds)) vs st0 Dfin) as D0.
+    destruct (Dt D0) as [Gtv _]. destruct (good_unmark _ _ _ Gtv Ut) as [Gtu _].
+    apply good_VTuple in Gtu. rewrite Forall_forall in Gtu.
     destruct (fold_inv step join_ds join_inv (fun st it Ds => proj1 (Hstep st it Ds)) vs) with (st := st0)
-      as [D0 Pf]; [|exact Dfin|].
-    + intros st it Hin Ds Pst. apply (proj2 (Hstep st it Ds)); [|exact Pst].
-      unfold st0 in D0. 
-      destruct (Dt ltac:(idtac)) as [G _].
-Abort.
+      as [_ Pf]; [|exact Dfin|].
+    + intros st it Hin Ds Pst. apply (proj2 (Hstep st it Ds)); [|exact Pst]. apply (Gtu it Hin).
+    + rewrite Ef in Pf. apply Pf. exact I.
+Qed.
+
+(* ---- function calls ------------------------------------------------------------------------ *)
+Definition arg_ok (f : fn) (i : nat) (a : val) : Prop :=
+  good a = true /\ (forall p, param_for f i = Some p -> type_of a = TDyn -> p_ty p = TDyn).
+
+Lemma param_for_sane f i p : fn_known f -> param_for f i = Some p -> param_sane p.
+Proof.
+  intros [_ [Hp Hv]] E. unfold param_for in E.
+  destruct (nth_opt (f_params f) i) eqn:En.
+  - injection E as <-. apply nth_opt_In in En. rewrite Forall_forall in Hp. auto.
+  - auto.
+Qed.
+
+Lemma call_check_not_ok f : forall args i r b, call_check f i args = (Some r, b) -> forall v, r <> CallOk v.
+Proof.
+  induction args as [|a rest IH]; intros i r b E v; cbn [call_check] in E; [discriminate|].
+  destruct (param_for f i) as [p|]; [|injection E as <- _; discriminate].
+  destruct (is_null a && negb (p_null p)); [injection E as <- _; discriminate|].
+  destruct (ty_eqb (type_of a) TDyn).
+  - destruct (negb (p_dyn p)); [discriminate|]. apply (IH _ _ _ E).
+  - match type of E with (if ?c then _ else _) = _ => destruct c end;
+      [injection E as <- _; discriminate|]. apply (IH _ _ _ E).
+Qed.
+
+Lemma call_check_nodyn f : fn_known f -> forall args i b,
+  Forall2 (arg_ok f) (seq i (length args)) args -> call_check f i args = (None, b) -> b = false.
+Proof.
+  intros Kf. induction args as [|a rest IH]; intros i b F E; cbn [call_check] in E.
+  - injection E as <-. reflexivity.
+  - simpl in F. inversion F as [|? ? ? ? [Ga Ta] F']; subst.
+    destruct (param_for f i) as [p|] eqn:Ep; [|discriminate].
+    destruct (is_null a && negb (p_null p)) eqn:N1; [discriminate|].
+    destruct (ty_eqb (type_of a) TDyn) eqn:Ty.
+    + apply ty_eqb_eq in Ty. rewrite (good_dyn_is_null _ Ga Ty) in N1. cbn [andb] in N1.
+      apply negb_false_iff in N1.
+      rewrite (param_for_sane f i p Kf Ep (Ta p eq_refl Ty) N1) in E. cbn [negb] in E.
+      apply (IH _ _ F' E).
+    + match type of E with (if ?c then _ else _) = _ => destruct c end; [discriminate|].
+      apply (IH _ _ F' E).
+Qed.
+
+Lemma Forall2_arg_good f i args : Forall2 (arg_ok f) (seq i (length args)) args -> Forall (fun a => good a = true) args.
+Proof.
+  revert i. induction args as [|a r IH]; intros i F; [constructor|].
+  simpl in F. inversion F as [|? ? ? ? [Ga _] F']; subst. constructor; [exact Ga|apply (IH _ F')].
+Qed.
+
+Lemma fn_call_good f args v :
+  fn_known f -> Forall2 (arg_ok f) (seq 0 (length args)) args -> fn_call f args = CallOk v -> good v = true.
+Proof.
+  intros Kf F E. unfold fn_call in E.
+  destruct (call_check f 0 args) as [[r|] dynarg] eqn:Ec.
+  - exfalso. apply (call_check_not_ok f args 0 r dynarg Ec v). exact E.
+  - rewrite (call_check_nodyn f Kf args 0 dynarg F Ec) in E.
+    pose proof (Forall2_arg_good f 0 args F) as Ga.
+    match type of E with
+    | match f_rettype f ?a with _ => _ end = _ => set (args' := a) in *
+    end.
+    destruct (f_rettype f args') as [rt|]; [|discriminate].
+    match type of E with
+    | (if ?u then _ else _) = _ => assert (Hu : u = false)
+    end.
+    { apply existsb_false_Forall. apply Forall_forall. intros [i a] Hin.
+      apply in_combine_r in Hin. rewrite Forall_forall in Ga. simpl.
+      destruct (param_for f i); [|reflexivity]. rewrite (good_is_known _ (Ga a Hin)). reflexivity. }
+    rewrite Hu in E. destruct (f_impl f args' rt) as [r| |] eqn:Ei; try discriminate.
+    injection E as <-. apply good_with_marks. destruct Kf as [Kimpl _]. apply (Kimpl args' rt r); [|exact Ei].
+    unfold args'. apply Forall_forall. intros x Hx. apply in_map_iff in Hx as [[y m] [<- Hy]].
+    apply in_map_iff in Hy as [[i a] [Hy Hin]]. apply in_combine_r in Hin. rewrite Forall_forall in Ga.
+    simpl in *. destruct (param_for f i) as [p|].
+    + destruct (p_marked p); injection Hy as <- _; [apply (Ga a Hin)|apply unmark_deep_good, (Ga a Hin)].
+    + injection Hy as <- _. apply (Ga a Hin).
+Qed.
+
+Lemma Forall2_snoc {A B} (R : A -> B -> Prop) l1 l2 x y :
+  Forall2 R l1 l2 -> R x y -> Forall2 R (l1 ++ [x]) (l2 ++ [y]).
+Proof. intros F H. apply Forall2_app; [exact F|constructor; [exact H|constructor]]. Qed.
+
+Lemma kiko_call f name args expand : KI f -> forall c anon v ds,
+  ctx_good c -> anon_good anon -> expr_ok (is_some anon) (ECall name args expand) = true ->
+  ev_ (S f) c anon (ECall name args expand) = (v, ds) -> diag_ok ds = true -> good v = true.
+Proof.
+  intros IH c anon v ds C A Ok E D. cbn [eval_with] in E. cbn [expr_ok] in Ok.
+  rewrite forallb_Forall in Ok.
+  destruct (lookup_fn c name false) as [[fnv|] sm] eqn:El; [|destruct sm; dead E D].
+  pose proof (lookup_fn_known _ _ _ _ _ C El) as Kf.
+  match type of E with
+  | match ?x with inl p => @?K p | inr r => _ end = _ =>
+      set (k := K) in *; set (expanded := x) in *;
+      change (match expanded with inl p => k p | inr r => r end = (v, ds)) in E
+  end.
+  assert (HK : forall args' ds0,
+          (diag_ok ds0 = true -> Forall (fun e => expr_ok (is_some anon) e = true) args') ->
+          k (args', ds0) = (v, ds) -> good v = true).
+  { intros args' ds0 Hargs Ek. unfold k in Ek.
+    destruct (length args' <? length (f_params fnv))%nat; [dead Ek D|].
+    match type of Ek with (if ?cnd then _ else _) = _ => destruct cnd end; [dead Ek D|].
+    match type of Ek with
+    | context [fold_left ?stp _ _] => set (stepf := stp) in *
+    end.
+    assert (Hfold : forall es k0 vals sds vals' ds',
+              fold_left stepf (combine (seq k0 (length es)) es) (vals, sds) = (vals', ds') ->
+              diag_ok ds' = true ->
+              diag_ok sds = true /\
+              (Forall (fun e => expr_ok (is_some anon) e = true) es -> length vals = k0 ->
+               Forall2 (arg_ok fnv) (seq 0 k0) vals -> Forall2 (arg_ok fnv) (seq 0 (length vals')) vals')).
+    { induction es as [|e es IHes]; intros k0 vals sds vals' ds' Ef Dd.
+      - simpl in Ef. injection Ef as <- <-. split; [exact Dd|]. intros _ L F. rewrite L. exact F.
+      - change (fold_left stepf (combine (seq (S k0) (length es)) es) (stepf (vals, sds) (k0, e)) = (vals', ds')) in Ef.
+        destruct (stepf (vals, sds) (k0, e)) as [vals1 ds1] eqn:Est.
+        destruct (IHes (S k0) vals1 ds1 vals' ds' Ef Dd) as [D1 F1].
+        unfold stepf in Est. cbn [fst snd] in Est.
+        destruct (ev_ f c anon e) as [av ads] eqn:Ea.
+        assert (D0 : diag_ok (sds ++ ads) = true /\
+                     (exists p v', param_for fnv k0 = Some p /\ conv av (p_ty p) = COk v' /\ vals1 = vals ++ [v'])).
+        { destruct (param_for fnv k0) as [p|].
+          - destruct (conv av (p_ty p)) as [v'| |] eqn:Ecv; injection Est as <- <-.
+            + split; [exact D1|exists p, v'; auto].
+            + rewrite diag_ok_app, andb_false_r in D1. discriminate.
+            + rewrite diag_ok_app, andb_false_r in D1. discriminate.
+          - injection Est as <- <-. rewrite diag_ok_app, andb_false_r in D1. discriminate. }
+        destruct D0 as [D0 [p [v' [Ep [Ecv ->]]]]].
+        rewrite diag_ok_app in D0. apply andb_true_iff in D0 as [D0 Da].
+        split; [exact D0|]. intros Fe L F. inversion Fe as [|? ? Oke Fe']; subst.
+        apply F1; [exact Fe'|rewrite app_length; simpl; lia|].
+        rewrite seq_S. apply Forall2_snoc; [exact F|]. simpl.
+        pose proof (IH c anon e av ads C A Oke Ea Da) as Gav.
+        split; [apply (conv_good _ _ _ Gav Ecv)|].
+        intros p' Ep' T. rewrite Ep in Ep'. injection Ep' as <-.
+        unfold conv in Ecv. apply (convert_dyn_type _ _ _ _ Ecv T). }
+    destruct (fold_left stepf (combine (seq 0 (length args')) args') ([], ds0)) as [argvals fds] eqn:Ef.
+    destruct (has_errors fds) eqn:He; [injection Ek as _ <-; rewrite (diag_ok_has_errors _ He) in D; discriminate|].
+    destruct (has_unsupported fds) eqn:Hu; [injection Ek as _ <-; rewrite (diag_ok_has_unsupported _ Hu) in D; discriminate|].
+    destruct (fn_call fnv argvals) as [rv| | |] eqn:Efc; try (dead Ek D).
+    injection Ek as <- <-.
+    destruct (Hfold args' 0%nat [] ds0 argvals fds Ef D) as [D0 F0].
+    apply (fn_call_good fnv argvals rv Kf); [|exact Efc].
+    apply F0; [apply (Hargs D0)|reflexivity|constructor]. }
+  unfold expanded in E. destruct expand.
+  2: { apply (HK args []); [intros _; exact Ok|exact E]. }
+  destruct (rev args) as [|last init_rev] eqn:Er; [dead E D|].
+  assert (Hsplit : args = rev init_rev ++ [last])
+    by (rewrite <- (rev_involutive args), Er; reflexivity).
+  rewrite Hsplit in Ok. apply Forall_app in Ok as [Okinit Oklast].
+  inversion Oklast as [|? ? Okl _]; subst.
+  destruct (ev_ f c anon last) as [xv xds] eqn:Ex.
+  destruct (has_errors xds) eqn:Hex;
+    [injection E as _ <-; rewrite (diag_ok_has_errors _ Hex) in D; discriminate|].
+  assert (Gx : diag_ok xds = true -> good xv = true) by (intros Dx; apply (IH c anon last xv xds C A Okl Ex Dx)).
+  assert (Fin : (if is_null xv then inr (dyn_val, xds ++ [derr S_InvalidExpand []])
+                 else if negb (is_known xv) then inr (with_same_marks dyn_val xv, xds)
+                 else let '(xu, xm) := unmark xv in
+                      inl (rev init_rev ++ map (fun kv : val * val => ELit (with_marks (snd kv) xm)) (elements xu), xds))
+                = expanded -> good v = true).
+  { intros Eexp. fold expanded in E. rewrite <- Eexp in E.
+    destruct (is_null xv) eqn:Nx; [dead E D|].
+    destruct (negb (is_known xv)) eqn:Kx;
+      [exfalso; injection E as _ <-; rewrite (good_is_known _ (Gx D)) in Kx; discriminate|].
+    destruct (unmark xv) as [xu xm] eqn:Ux.
+    apply (HK (rev init_rev ++ map (fun kv : val * val => ELit (with_marks (snd kv) xm)) (elements xu)) xds); [|exact E].
+    intros Dx. specialize (Gx Dx). destruct (good_unmark _ _ _ Gx Ux) as [Gxu _].
+    apply Forall_app. split; [exact Okinit|].
+    apply Forall_forall. intros e He. apply in_map_iff in He as [[kk vv] [<- Hkv]].
+    simpl. apply good_with_marks.
+    clear -Gxu Hkv. destruct xu; simpl in Hkv; try contradiction.
+    - apply good_VList in Gxu. revert Hkv. generalize 0. induction l as [|x r IHl]; intros z Hin; simpl in Hin; [contradiction|].
+      inversion Gxu; subst. destruct Hin as [Hin|Hin]; [injection Hin as _ <-; assumption|apply (IHl H2 _ Hin)].
+    - apply good_VSet in Gxu. apply in_map_iff in Hkv as [x [Hx Hin]]. injection Hx as _ <-.
+      rewrite Forall_forall in Gxu. auto.
+    - apply good_VMap in Gxu. apply in_map_iff in Hkv as [x [Hx Hin]]. injection Hx as _ <-.
+      rewrite Forall_forall in Gxu. apply (Gxu x Hin).
+    - apply good_VTuple in Gxu. revert Hkv. generalize 0. induction l as [|x r IHl]; intros z Hin; simpl in Hin; [contradiction|].
+      inversion Gxu; subst. destruct Hin as [Hin|Hin]; [injection Hin as _ <-; assumption|apply (IHl H2 _ Hin)].
+    - apply good_VObj in Gxu. apply in_map_iff in Hkv as [x [Hx Hin]]. injection Hx as _ <-.
+      rewrite Forall_forall in Gxu. apply (Gxu x Hin). }
+  destruct (type_of xv) eqn:Tx; try (dead E D); try (apply Fin; reflexivity).
+  (* dynamic type *)
+  destruct (is_null xv) eqn:Nx; [dead E D|].
+  exfalso. injection E as _ <-. rewrite (good_dyn_is_null _ (Gx D) Tx) in Nx. discriminate.
+Qed.
+
+(* ---- splat -------------------------------------------------------------------------------- *)
+Lemma index_from_good : forall l z kv, Forall (fun x => good x = true) l -> In kv (index_from z l) ->
+  good (fst kv) = true /\ good (snd kv) = true.
+Proof.
+  induction l as [|x r IH]; intros z kv F Hin; simpl in Hin; [contradiction|].
+  inversion F; subst. destruct Hin as [<-|Hin]; [split; [reflexivity|assumption]|apply (IH _ _ H2 Hin)].
+Qed.
+
+Lemma elements_good cu kv : good cu = true -> In kv (elements cu) -> good (fst kv) = true /\ good (snd kv) = true.
+Proof.
+  intros G Hin. destruct cu; simpl in Hin; try contradiction.
+  - apply good_VList in G. apply (index_from_good _ _ _ G Hin).
+  - apply good_VSet in G. apply in_map_iff in Hin as [x [<- Hin]]. rewrite Forall_forall in G. simpl. auto.
+  - apply good_VMap in G. apply in_map_iff in Hin as [x [<- Hin]]. rewrite Forall_forall in G. simpl.
+    split; [reflexivity|apply (G x Hin)].
+  - apply good_VTuple in G. apply (index_from_good _ _ _ G Hin).
+  - apply good_VObj in G. apply in_map_iff in Hin as [x [<- Hin]]. rewrite Forall_forall in G. simpl.
+    split; [reflexivity|apply (G x Hin)].
+Qed.
+
+Lemma kiko_splat f src each : KI f -> forall c anon v ds,
+  ctx_good c -> anon_good anon -> expr_ok (is_some anon) (ESplat src each) = true ->
+  ev_ (S f) c anon (ESplat src each) = (v, ds) -> diag_ok ds = true -> good v = true.
+Proof.
+  intros IH c anon v ds C A Ok E D. cbn [eval_with] in E. cbn [expr_ok] in Ok.
+  apply andb_true_iff in Ok as [Oks Oke].
+  destruct (ev_ f c anon src) as [sv0 sds] eqn:Es.
+  destruct (has_errors sds) eqn:Hes;
+    [injection E as _ <-; rewrite (diag_ok_has_errors _ Hes) in D; discriminate|].
+  assert (Gs : diag_ok sds = true -> good sv0 = true) by (intros Dx; apply (IH c anon src sv0 sds C A Oks Es Dx)).
+  destruct (is_null sv0) eqn:Ns.
+  { match type of E with (if ?a then _ else _) = _ => destruct a end; [|dead E D].
+    injection E as <- <-. apply good_with_same_marks. reflexivity. }
+  destruct (ty_eqb (type_of sv0) TDyn) eqn:Ts.
+  { exfalso. injection E as _ <-. apply ty_eqb_eq in Ts.
+    rewrite (good_dyn_is_null _ (Gs D) Ts) in Ns. discriminate. }
+  match type of E with
+  | context [unmark ?x] =>
+      lazymatch x with
+      | (if _ then with_same_marks (VTuple [sv0]) sv0 else sv0) => set (sv := x) in *
+      end
+  end.
+  assert (Gsv : diag_ok sds = true -> good sv = true).
+  { intros Dx. specialize (Gs Dx). unfold sv.
+    match goal with |- good (if ?a then _ else _) = true => destruct a end; [|exact Gs].
+    apply good_with_same_marks. apply good_VTuple. constructor; [exact Gs|constructor]. }
+  destruct (negb (is_known sv)) eqn:Ksv.
+  { exfalso. repeat destruct_head E; injection E as _ <-; rewrite diag_ok_app in D; apply andb_true_iff in D as [D _];
+      rewrite (good_is_known _ (Gsv D)) in Ksv; discriminate. }
+  destruct (unmark sv) as [su sm] eqn:Usv.
+  match type of E with
+  | context [map snd ?x] => set (rs := x) in *
+  end.
+  match type of E with
+  | match ?u with _ => _ end = _ => destruct u as [[|]|] eqn:Euu
+  end.
+  - (* upgraded unknown: impossible for a known source *)
+    exfalso. injection E as _ <-. rewrite diag_ok_app in D. apply andb_true_iff in D as [D _].
+    rewrite (good_is_known _ (Gs D)) in Euu. cbn [negb] in Euu. rewrite andb_false_r in Euu. discriminate.
+  - (* the normal case *)
+    assert (Hall : diag_ok (sds ++ concat (map snd rs)) = true ->
+                   good su = true /\ Forall (fun x => good x = true) (map fst rs)).
+    { intros Da. rewrite diag_ok_app in Da. apply andb_true_iff in Da as [D1 D2].
+      destruct (good_unmark _ _ _ (Gsv D1) Usv) as [Gsu _]. split; [exact Gsu|].
+      rewrite diag_ok_concat in D2. rewrite forallb_Forall in D2. rewrite Forall_forall in *.
+      intros x Hx. apply in_map_iff in Hx as [[v' d'] [<- Hr]]. simpl.
+      assert (Dd : diag_ok d' = true) by (apply D2; apply in_map_iff; exists (v', d'); split; [reflexivity|exact Hr]).
+      unfold rs in Hr. apply in_map_iff in Hr as [kv [Ekv Hkv]].
+      destruct (elements_good su kv Gsu Hkv) as [_ Gel].
+      apply (IH c (Some (snd kv)) each v' d' C); [|exact Oke|exact Ekv|exact Dd].
+      intros a Ea. injection Ea as <-. exact Gel. }
+    match type of E with
+    | (if ?cnd then _ else _) = _ => destruct cnd eqn:Eall
+    end.
+    { exfalso. injection E as _ <-. apply negb_true_iff, negb_false_iff in Eall.
+      apply existsb_exists in Eall as [[v' d'] [Hin He]]. simpl in He.
+      rewrite diag_ok_app in D. apply andb_true_iff in D as [_ D]. rewrite diag_ok_concat in D.
+      rewrite forallb_Forall in D. rewrite Forall_forall in D.
+      assert (Dd : diag_ok d' = true) by (apply D; apply in_map_iff; exists (v', d'); split; [reflexivity|exact Hin]).
+      rewrite (diag_ok_has_errors _ He) in Dd. discriminate. }
+    destruct (type_of sv) eqn:Tsv.
+    all: try (injection E as <- <-; destruct (Hall D) as [_ Gv]; apply good_with_marks; apply good_VTuple; exact Gv).
+    all: destruct (map fst rs) as [|v0 rest] eqn:Evals.
+    all: try (destruct_head E; injection E as <- <-; apply good_with_marks; reflexivity).
+    all: match type of E with (if ?cnd then _ else _) = _ => destruct cnd end; [|dead E D].
+    all: injection E as <- <-; destruct (Hall D) as [_ Gv]; apply good_with_marks; apply good_VList; exact Gv.
+  - dead E D.
+Qed.
+
+(* ---- for expressions ------------------------------------------------------------------------ *)
+Lemma ctx_good_child c vars :
+  ctx_good c -> Forall (fun p : list Z * val => good (snd p) = true) vars -> ctx_good (child_ctx c vars).
+Proof.
+  intros C F. constructor; [|exact C]. split; simpl.
+  - intros vs E. injection E as <-. exact F.
+  - intros fs E. discriminate.
+Qed.
+
+Lemma bind_good (kvar vvar : list Z) (k v : val) :
+  good k = true -> good v = true ->
+  Forall (fun p : list Z * val => good (snd p) = true)
+    ((if str_eqb kvar [] || str_eqb kvar vvar then [] else [(kvar, k)]) ++ [(vvar, v)]).
+Proof.
+  intros Gk Gv. apply Forall_app. split.
+  - destruct (str_eqb kvar [] || str_eqb kvar vvar); constructor; [exact Gk|constructor].
+  - constructor; [exact Gv|constructor].
+Qed.
+
+Definition ofor_state := (list (list Z * val) * list (list Z * list val) * list marks * bool * list diag)%type.
+Definition ofor_ds (st : ofor_state) : list diag := let '(_, _, _, _, ds) := st in ds.
+Definition ofor_inv (st : ofor_state) : Prop :=
+  let '(vals, groups, _, known, _) := st in
+  known = true /\ Forall (fun p => good (snd p) = true) vals /\
+  Forall (fun p => Forall (fun x => good x = true) (snd p)) groups.
+
+Definition tfor_state := (list val * list marks * bool * list diag)%type.
+Definition tfor_ds (st : tfor_state) : list diag := let '(_, _, _, ds) := st in ds.
+Definition tfor_inv (st : tfor_state) : Prop :=
+  let '(vals, _, known, _) := st in known = true /\ Forall (fun x => good x = true) vals.
+
+Ltac destruct_ds Ds :=
+  match type of Ds with
+  | diag_ok (_ ?x) = true => destruct_scrut x
+  end.
+Ltac ds_prefix Ds :=
+  cbn [ofor_ds tfor_ds] in Ds; repeat rewrite diag_ok_app in Ds;
+  repeat (apply andb_true_iff in Ds as [Ds _]); exact Ds.
+Ltac ds_dead Ds :=
+  cbn [ofor_ds tfor_ds] in Ds; repeat rewrite diag_ok_app in Ds;
+  rewrite ?diag_ok_cons_err, ?diag_ok_cons_unsup in Ds; rewrite ?andb_false_r in Ds; discriminate Ds.
+Ltac ds_parts Ds :=
+  cbn [ofor_ds tfor_ds] in Ds; repeat rewrite diag_ok_app in Ds;
+  repeat match type of Ds with
+         | (_ && _ = true) => let D' := fresh "Dp" in apply andb_true_iff in Ds as [Ds D']
+         end.
+
+Lemma assoc_set_groups_good k (l : list val) (groups : list (list Z * list val)) :
+  Forall (fun x => good x = true) l ->
+  Forall (fun p => Forall (fun x => good x = true) (snd p)) groups ->
+  Forall (fun p => Forall (fun x => good x = true) (snd p)) (assoc_set k l groups).
+Proof.
+  intros Gl. induction groups as [|[k' l'] r IH]; intros F; simpl.
+  - constructor; [exact Gl|constructor].
+  - inversion F; subst. destruct (str_eqb k k'); [constructor; assumption|].
+    destruct (str_ltb k k'); [constructor; [exact Gl|exact F]|]. constructor; auto.
+Qed.
+
+Lemma conv_bool_shape u b : good u = true -> conv u TBool = COk b -> good b = true.
+Proof. apply conv_good. Qed.
+
+Lemma kiko_for f kvar vvar coll keye vale conde group : KI f -> forall c anon v ds,
+  ctx_good c -> anon_good anon ->
+  expr_ok (is_some anon) (EFor kvar vvar coll keye vale conde group) = true ->
+  ev_ (S f) c anon (EFor kvar vvar coll keye vale conde group) = (v, ds) -> diag_ok ds = true -> good v = true.
+Proof.
+  intros IH c anon v ds C A Ok E D. cbn [eval_with] in E. cbn [expr_ok] in Ok.
+  apply andb_true_iff in Ok as [Ok Okcond]. apply andb_true_iff in Ok as [Ok Okv].
+  apply andb_true_iff in Ok as [Okc Okk].
+  destruct (ev_ f c anon coll) as [cv0 ds0] eqn:Es.
+  assert (G0 : diag_ok ds0 = true -> good cv0 = true) by (intros Dx; apply (IH c anon coll cv0 ds0 C A Okc Es Dx)).
+  destruct (is_null cv0) eqn:Ns; [dead E D|].
+  destruct (ty_eqb (type_of cv0) TDyn) eqn:Ts.
+  { exfalso. injection E as _ <-. apply ty_eqb_eq in Ts. rewrite (good_dyn_is_null _ (G0 D) Ts) in Ns. discriminate. }
+  destruct (unmark cv0) as [cv cmk] eqn:Uc.
+  destruct (negb (can_iterate cv)); [dead E D|].
+  match type of E with
+  | match ?x with inl p => @?K p | inr r => _ end = _ =>
+      set (k := K) in *; set (probe := x) in *;
+      change (match probe with inl p => k p | inr r => r end = (v, ds)) in E
+  end.
+  assert (IHel : forall kv e v' d', In kv (elements cv) -> good cv = true ->
+            expr_ok (is_some anon) e = true ->
+            ev_ f (child_ctx c ((if str_eqb kvar [] || str_eqb kvar vvar then [] else [(kvar, fst kv)]) ++ [(vvar, snd kv)]))
+                anon e = (v', d') -> diag_ok d' = true -> good v' = true).
+  { intros kv e v' d' Hin Gcv Oke Ee Dd. destruct (elements_good cv kv Gcv Hin) as [Gk Gv].
+    apply (IH _ anon e v' d' (ctx_good_child c _ C (bind_good kvar vvar _ _ Gk Gv)) A Oke Ee Dd). }
+  assert (HK : forall condmk ds1, (diag_ok ds1 = true -> diag_ok ds0 = true) -> k (condmk, ds1) = (v, ds) -> good v = true).
+  { intros condmk ds1 Hds Ek. unfold k in Ek.
+    destruct (negb (is_known cv)) eqn:Kc.
+    { exfalso. injection Ek as _ <-. destruct (good_unmark _ _ _ (G0 (Hds D)) Uc) as [Gcv _].
+      rewrite (good_is_known _ Gcv) in Kc. discriminate. }
+    destruct keye as [ke|].
+    - (* object for *)
+      match type of Ek with
+      | context [fold_left ?stp _ ?init] => set (stepf := stp) in *; set (st0 := init) in *
+      end.
+      assert (Hmono : forall (st : ofor_state) kv, diag_ok (ofor_ds (stepf st kv)) = true -> diag_ok (ofor_ds st) = true).
+      { intros [[[[vals groups] mks] known] sds] kv Ds. unfold stepf in Ds. destruct known; destruct group;
+          repeat destruct_ds Ds; ds_prefix Ds. }
+      assert (Hpres : forall (st : ofor_state) kv, In kv (elements cv) -> good cv = true ->
+                diag_ok (ofor_ds (stepf st kv)) = true -> ofor_inv st -> ofor_inv (stepf st kv)).
+      { intros [[[[vals groups] mks] known] sds] kv Hin Gcv Ds [Kn [Fv Fg]]. subst known.
+        unfold stepf in Ds |- *. simpl in Okk.
+        assert (Key : forall mks0 sds0,
+          diag_ok (ofor_ds
+            (let '(kraw, kds) := ev_ f (child_ctx c ((if str_eqb kvar [] || str_eqb kvar vvar then [] else [(kvar, fst kv)]) ++ [(vvar, snd kv)])) anon ke in
+             if is_null kraw then (vals, groups, mks0, false, (sds0 ++ kds) ++ [derr S_InvalidObjKey []])
+             else if negb (is_known kraw) then (vals, groups, mks0 ++ [marks_of kraw], false, sds0 ++ kds)
+             else match conv kraw TStr with
+                  | COk kc =>
+                      match fst (unmark kc) with
+                      | VStr ks =>
+                          let '(v1, vds) := ev_ f (child_ctx c ((if str_eqb kvar [] || str_eqb kvar vvar then [] else [(kvar, fst kv)]) ++ [(vvar, snd kv)])) anon vale in
+                          if group then (vals, assoc_set ks (match assoc_get ks groups with Some l => l | None => [] end ++ [v1]) groups,
+                                         mks0 ++ [marks_of kraw], true, (sds0 ++ kds) ++ vds)
+                          else match assoc_get ks vals with
+                               | Some _ => (vals, groups, mks0 ++ [marks_of kraw], true,
+                                            ((sds0 ++ kds) ++ vds) ++ [derr S_DuplicateKey (if existsb (fun m : list Z => negb (zlist_eqb m [])) (mks0 ++ [marks_of kraw]) then [] else [FStr ks []])])
+                               | None => (assoc_set ks v1 vals, groups, mks0 ++ [marks_of kraw], true, (sds0 ++ kds) ++ vds)
+                               end
+                      | _ => (vals, groups, mks0 ++ [marks_of kraw], false, (sds0 ++ kds) ++ [dunsupported])
+                      end
+                  | CErr cer => (vals, groups, mks0 ++ [marks_of kraw], false, (sds0 ++ kds) ++ [derr S_InvalidObjKey [FConv cer]])
+                  | CUnsupported => (vals, groups, mks0 ++ [marks_of kraw], false, (sds0 ++ kds) ++ [dunsupported])
+                  end)) = true ->
+          ofor_inv
+            (let '(kraw, kds) := ev_ f (child_ctx c ((if str_eqb kvar [] || str_eqb kvar vvar then [] else [(kvar, fst kv)]) ++ [(vvar, snd kv)])) anon ke in
+             if is_null kraw then (vals, groups, mks0, false, (sds0 ++ kds) ++ [derr S_InvalidObjKey []])
+             else if negb (is_known kraw) then (vals, groups, mks0 ++ [marks_of kraw], false, sds0 ++ kds)
+             else match conv kraw TStr with
+                  | COk kc =>
+                      match fst (unmark kc) with
+                      | VStr ks =>
+                          let '(v1, vds) := ev_ f (child_ctx c ((if str_eqb kvar [] || str_eqb kvar vvar then [] else [(kvar, fst kv)]) ++ [(vvar, snd kv)])) anon vale in
+                          if group then (vals, assoc_set ks (match assoc_get ks groups with Some l => l | None => [] end ++ [v1]) groups,
+                                         mks0 ++ [marks_of kraw], true, (sds0 ++ kds) ++ vds)
+                          else match assoc_get ks vals with
+                               | Some _ => (vals, groups, mks0 ++ [marks_of kraw], true,
+                                            ((sds0 ++ kds) ++ vds) ++ [derr S_DuplicateKey (if existsb (fun m : list Z => negb (zlist_eqb m [])) (mks0 ++ [marks_of kraw]) then [] else [FStr ks []])])
+                               | None => (assoc_set ks v1 vals, groups, mks0 ++ [marks_of kraw], true, (sds0 ++ kds) ++ vds)
+                               end
+                      | _ => (vals, groups, mks0 ++ [marks_of kraw], false, (sds0 ++ kds) ++ [dunsupported])
+                      end
+                  | CErr cer => (vals, groups, mks0 ++ [marks_of kraw], false, (sds0 ++ kds) ++ [derr S_InvalidObjKey [FConv cer]])
+                  | CUnsupported => (vals, groups, mks0 ++ [marks_of kraw], false, (sds0 ++ kds) ++ [dunsupported])
+                  end)).
+        { intros mks0 sds0 Dk.
+          destruct (ev_ f _ anon ke) as [kraw kds] eqn:Ek'.
+          destruct (is_null kraw); [ds_dead Dk|].
+          destruct (negb (is_known kraw)) eqn:Kk.
+          { exfalso. ds_parts Dk. rewrite (good_is_known _ (IHel kv ke kraw kds Hin Gcv Okk Ek' Dp)) in Kk. discriminate. }
+          destruct (conv kraw TStr) as [kc| |]; [|ds_dead Dk|ds_dead Dk].
+          destruct (fst (unmark kc)); try (ds_dead Dk).
+          destruct (ev_ f _ anon vale) as [v1 vds] eqn:Ev'.
+          destruct group.
+          - ds_parts Dk. pose proof (IHel kv vale v1 vds Hin Gcv Okv Ev' Dp) as Gv1.
+            cbn [ofor_inv]. split; [reflexivity|]. split; [exact Fv|].
+            apply assoc_set_groups_good; [|exact Fg].
+            apply Forall_app. split; [|constructor; [exact Gv1|constructor]].
+            destruct (assoc_get s groups) eqn:Eg; [|constructor].
+            apply (assoc_get_good (fun l => Forall (fun x => good x = true) l) _ _ _ Fg Eg).
+          - destruct (assoc_get s vals); [ds_dead Dk|].
+            ds_parts Dk. pose proof (IHel kv vale v1 vds Hin Gcv Okv Ev' Dp) as Gv1.
+            cbn [ofor_inv]. split; [reflexivity|]. split; [|exact Fg]. apply assoc_set_good; assumption. }
+        destruct conde as [ce|]; [|apply Key; exact Ds].
+        simpl in Okcond.
+        destruct (ev_ f _ anon ce) as [inc cds] eqn:Ec'.
+        destruct (is_null inc); [ds_dead Ds|].
+        destruct (conv inc TBool) as [b| |] eqn:Ecb; [|ds_dead Ds|ds_dead Ds].
+        destruct (negb (is_known b)) eqn:Kb.
+        { exfalso. ds_parts Ds. pose proof (IHel kv ce inc cds Hin Gcv Okcond Ec' Dp) as Ginc.
+          rewrite (good_is_known _ (conv_good _ _ _ Ginc Ecb)) in Kb. discriminate. }
+        destruct (fst (unmark b)) as [| |[|]| | | | | | | |]; try (apply Key; exact Ds).
+        cbn [ofor_inv]. auto. }
+      destruct (fold_left stepf (elements cv) st0) as [[[[vals groups] mks] known] fds] eqn:Ef.
+      assert (Dfin : diag_ok (ofor_ds (fold_left stepf (elements cv) st0)) = true).
+      { rewrite Ef. cbn [ofor_ds]. destruct (negb known); injection Ek as _ <-; exact D. }
+      pose proof (fold_ds_ok stepf ofor_ds Hmono (elements cv) st0 Dfin) as D1. unfold st0 in D1. cbn [ofor_ds] in D1.
+      destruct (good_unmark _ _ _ (G0 (Hds D1)) Uc) as [Gcv _].
+      destruct (fold_inv stepf ofor_ds ofor_inv Hmono (elements cv)) with (st := st0) as [_ Pf]; [|exact Dfin|].
+      + intros st it Hin Ds Pst. apply (Hpres st it Hin Gcv Ds Pst).
+      + rewrite Ef in Pf. destruct Pf as [Kn [Fv Fg]]; [cbn [ofor_inv]; auto|].
+        subst known. cbn [negb] in Ek. injection Ek as <- <-. apply good_with_marks. apply good_VObj.
+        destruct group; [|exact Fv].
+        apply Forall_forall. intros p Hp. apply in_map_iff in Hp as [[k' l'] [<- Hin]]. simpl.
+        apply good_VTuple. rewrite Forall_forall in Fg. apply (Fg _ Hin).
+    - (* tuple for *)
+      match type of Ek with
+      | context [fold_left ?stp _ ?init] => set (stepf := stp) in *; set (st0 := init) in *
+      end.
+      assert (Hmono : forall (st : tfor_state) kv, diag_ok (tfor_ds (stepf st kv)) = true -> diag_ok (tfor_ds st) = true).
+      { intros [[[vals mks] known] sds] kv Ds. unfold stepf in Ds. destruct known;
+          repeat destruct_ds Ds; ds_prefix Ds. }
+      assert (Hpres : forall (st : tfor_state) kv, In kv (elements cv) -> good cv = true ->
+                diag_ok (tfor_ds (stepf st kv)) = true -> tfor_inv st -> tfor_inv (stepf st kv)).
+      { intros [[[vals mks] known] sds] kv Hin Gcv Ds [Kn Fv]. subst known.
+        unfold stepf in Ds |- *.
+        assert (Val : forall mks0 sds0,
+          diag_ok (tfor_ds
+            (let '(v1, vds) := ev_ f (child_ctx c ((if str_eqb kvar [] || str_eqb kvar vvar then [] else [(kvar, fst kv)]) ++ [(vvar, snd kv)])) anon vale in
+             (vals ++ [v1], mks0, true, sds0 ++ vds))) = true ->
+          tfor_inv
+            (let '(v1, vds) := ev_ f (child_ctx c ((if str_eqb kvar [] || str_eqb kvar vvar then [] else [(kvar, fst kv)]) ++ [(vvar, snd kv)])) anon vale in
+             (vals ++ [v1], mks0, true, sds0 ++ vds))).
+        { intros mks0 sds0 Dk. destruct (ev_ f _ anon vale) as [v1 vds] eqn:Ev'.
+          ds_parts Dk. pose proof (IHel kv vale v1 vds Hin Gcv Okv Ev' Dp) as Gv1.
+          cbn [tfor_inv]. split; [reflexivity|]. apply Forall_app. split; [exact Fv|constructor; [exact Gv1|constructor]]. }
+        destruct conde as [ce|]; [|apply Val; exact Ds].
+        simpl in Okcond.
+        destruct (ev_ f _ anon ce) as [inc cds] eqn:Ec'.
+        destruct (is_null inc); [ds_dead Ds|].
+        destruct (negb (is_known inc)) eqn:Ki.
+        { exfalso. ds_parts Ds. rewrite (good_is_known _ (IHel kv ce inc cds Hin Gcv Okcond Ec' Dp)) in Ki. discriminate. }
+        destruct (conv inc TBool) as [b| |] eqn:Ecb; [|ds_dead Ds|ds_dead Ds].
+        destruct (fst (unmark b)) as [| |[|]| | | | | | | |]; try (apply Val; exact Ds).
+        cbn [tfor_inv]. auto. }
+      destruct (fold_left stepf (elements cv) st0) as [[[vals mks] known] fds] eqn:Ef.
+      assert (Dfin : diag_ok (tfor_ds (fold_left stepf (elements cv) st0)) = true).
+      { rewrite Ef. cbn [tfor_ds]. destruct (negb known); injection Ek as _ <-; exact D. }
+      pose proof (fold_ds_ok stepf tfor_ds Hmono (elements cv) st0 Dfin) as D1. unfold st0 in D1. cbn [tfor_ds] in D1.
+      destruct (good_unmark _ _ _ (G0 (Hds D1)) Uc) as [Gcv _].
+      destruct (fold_inv stepf tfor_ds tfor_inv Hmono (elements cv)) with (st := st0) as [_ Pf]; [|exact Dfin|].
+      + intros st it Hin Ds Pst. apply (Hpres st it Hin Gcv Ds Pst).
+      + rewrite Ef in Pf. destruct Pf as [Kn Fv]; [cbn [tfor_inv]; auto|].
+        subst known. cbn [negb] in Ek. injection Ek as <- <-. apply good_with_marks. apply good_VTuple. exact Fv. }
+  unfold probe in E. destruct conde as [ce|].
+  - destruct (ev_ f _ anon ce) as [r cds].
+    destruct (is_null r); [dead E D|].
+    destruct (conv r TBool) as [b| |]; [|dead E D|dead E D].
+    destruct (has_errors cds) eqn:Hec.
+    + exfalso. injection E as _ <-. rewrite diag_ok_app in D. apply andb_true_iff in D as [_ D].
+      rewrite (diag_ok_has_errors _ Hec) in D. discriminate.
+    + apply (HK (marks_of r) (ds0 ++ cds)); [|exact E].
+      intros Dx. rewrite diag_ok_app in Dx. apply andb_true_iff in Dx as [Dx _]. exact Dx.
+  - apply (HK [] ds0); [auto|exact E].
+Qed.
